@@ -338,7 +338,96 @@ def r4(repo, res):
                    key=f"writer-input:{suf}")
 
 
+def _loop_relative_guards(c, loop, node):
+    """Guard facts of `node` that arise inside `loop` (facts that already hold at the loop head are dropped)."""
+    head = {(id(t), p) for t, p in c.guards(c.node_of(loop))}
+    out = []
+    for t, p in c.guards(c.node_of(node)):
+        if (id(t), p) in head or t is loop:
+            continue
+        out.append((t, p))
+    return out
+
+
+def r5(repo, res):
+    """Every candidate produced by one stage is handed to the next (no pruning before the final, relative filter)."""
+    g = repo.func("genotype::genotype")
+    em = repo.func("minor::estimate_minor")
+    cg, ce = cfg_of(g), cfg_of(em)
+    plan = [(g, cg, "estimate_major", "cn_sols"), (em, ce, "solve_minor_model", None)]
+    for func, c, callee, lst in plan:
+        calls = find_calls(func, callee)
+        if not calls:
+            res.err("C10.R5", f"call of {callee} not found in {func.name}")
+            continue
+        call = calls[0]
+        loops = []
+        p = call
+        while p is not None and p is not func:
+            if isinstance(p, ast.For):
+                loops.append(p)
+            p = getattr(p, "_parent", None)
+        if not loops:
+            res.ob("C10.R5", func, call, False, expected=f"{callee} is called once per candidate of the previous stage", found="not inside a loop",
+                   key=f"all-candidates:{callee}")
+            continue
+        outer = loops[-1]
+        extra = [(t, p_) for t, p_ in _loop_relative_guards(c, outer, call) if not isinstance(t, ast.For)]
+        inner_loops = [t for t, p_ in _loop_relative_guards(c, outer, call) if isinstance(t, ast.For)]
+        ok = not extra
+        res.ob("C10.R5", func, call, ok,
+               expected=f"{callee} runs for every element of the loop(s) around it -- no skip, break or condition before it",
+               found="unconditional" if ok else "guarded by " + "; ".join(("" if p_ else "not ") + ast.unparse(t)[:70] for t, p_ in extra),
+               clause="the reported solutions are exactly those candidates within the gap of the best *combined* score "
+                      "(a candidate may only be dropped by the final, relative filter)",
+               key=f"all-candidates:{callee}")
+        # the results of the call are accumulated unconditionally as well
+        acc = [n for n in walk_local(outer) if isinstance(n, ast.AugAssign) and isinstance(n.op, ast.Add)
+               and isinstance(n.target, ast.Name) and isinstance(n.value, ast.Name) and n.target.id.endswith("_sols")]
+        ok2 = bool(acc) and not [x for x in _loop_relative_guards(c, outer, acc[0]) if not isinstance(x[0], ast.For)]
+        res.ob("C10.R5", func, acc[0] if acc else outer, ok2, expected="every solution returned by the stage is collected",
+               found=ast.unparse(acc[0]) if acc else "no accumulation statement", key=f"collect:{callee}")
+        if lst:
+            it = ast.unparse(outer.iter)
+            ok3 = it in (lst, f"enumerate({lst})")
+            res.ob("C10.R5", func, outer, ok3, expected=f"the loop ranges over the whole list `{lst}`", found=it, key=f"whole-list:{callee}")
+    # estimate_minor: the structure groups partition the whole input list
+    try:
+        ms = [mk(1.0, "a", cn_solution="c1"), mk(2.0, "b", cn_solution="c2"), mk(3.0, "c", cn_solution="c1")]
+        groups = [n for n in walk_local(em) if isinstance(n, ast.Assign) and isinstance(n.targets[0], ast.Name) and n.targets[0].id == "majors"]
+        cs = [n for n in walk_local(em) if isinstance(n, ast.Assign) and isinstance(n.targets[0], ast.Name) and n.targets[0].id == "cn_sols"]
+        if groups and cs:
+            cn_sols = Evaluator({"major_sols": ms}).ev(cs[0].value)
+            seen = []
+            for c_ in cn_sols:
+                seen += Evaluator({"major_sols": ms, "c": c_}).ev(groups[0].value)
+            ok = sorted(id(x) for x in seen) == sorted(id(x) for x in ms)
+        else:
+            ok = False
+    except (Unfoldable, Raised) as e:
+        res.err("C10.R5", f"structure grouping in estimate_minor outside folding language: {e}")
+        return
+    res.ob("C10.R5", em, groups[0] if groups else em, ok, expected="grouping by structure covers every major solution exactly once",
+           found="partition" if ok else "not a partition", key="grouping-partition")
+    # genotype(): every refined candidate is re-wrapped and collected
+    app = [n for n in walk_local(g) if isinstance(n, ast.Call) and isinstance(n.func, ast.Attribute) and n.func.attr == "append"
+           and ast.unparse(n.func.value) == "minor_sols"]
+    okw = False
+    if app:
+        lp = _loop_of(app[0])
+        okw = lp is not None and any(isinstance(x, ast.Call) and call_name(x).endswith("estimate_minor") for x in ast.walk(lp.iter)) \
+            and not [x for x in _loop_relative_guards(cg, lp, app[0]) if not isinstance(x[0], ast.For)]
+    res.ob("C10.R5", g, app[0] if app else g, okw, expected="every solution returned by estimate_minor is re-wrapped and collected", found="ok" if okw else "conditional / missing",
+           key="collect:estimate_minor")
+    mc = find_calls(g, "estimate_minor")
+    if mc:
+        a = [ast.unparse(x) for x in mc[0].args]
+        res.ob("C10.R5", g, mc[0], "major_sols" in a, expected="the minor stage receives the selected major solutions", found=", ".join(a)[:80],
+               key="minor-input")
+
+
 def run(repo, res):
+    r5(repo, res)
     r1(repo, res)
     r2(repo, res)
     r3(repo, res)
@@ -387,6 +476,14 @@ MUTANTS = [
          old="            m.solution,\n            m.cn_solution,\n            m.added,", new="            m.solution,\n            m.cn_solution,\n            [],"),
     dict(name="R4 returns unfiltered list", module="genotype", expect=["C10.R4"],
          old="    return {gene_db: minor_sols}", new="    minor_sols = list(minor_sols) + []\n    return {gene_db: minor_sols}"),
+    dict(name="R5 structures pruned before the major stage (seeded C10_2 shape)", module="genotype", expect="C10.R5",
+         old="    for i, cn_sol in enumerate(cn_sols):\n        sols = major.estimate_major(",
+         new="    for i, cn_sol in enumerate(cn_sols):\n        if cn_sol.score - min_cn_score - profile.gap >= SOLUTION_PRECISION:\n            break\n        sols = major.estimate_major("),
+    dict(name="R5 only the best structure is explored", module="genotype", expect="C10.R5",
+         old="    for i, cn_sol in enumerate(cn_sols):\n        sols = major.estimate_major(", new="    for i, cn_sol in enumerate(cn_sols[:1]):\n        sols = major.estimate_major("),
+    dict(name="R5 minor solutions of later majors skipped", module="minor", expect="C10.R5",
+         old="        for major_sol in natsorted(majors, key=lambda s: str(s.solution)):\n            sols = solve_minor_model(",
+         new="        for major_sol in natsorted(majors, key=lambda s: str(s.solution)):\n            if minor_sols:\n                continue\n            sols = solve_minor_model("),
     # benign
     dict(name="benign: min via generator", module="genotype", kind="benign",
          old="min_cn_score = min(cn_sols, key=lambda m: m.score).score", new="min_cn_score = min(m.score for m in cn_sols)"),
